@@ -20,6 +20,7 @@ import time
 UNIT = float(os.environ.get("C65_UNIT", "0.0004"))
 LOG = os.environ.get("C65_LOG")
 _QUIET = False            # set by the driver process while it computes the direct oracle
+_NOSLEEP = False          # set by the driver process for the serial backend (no concurrency to perturb)
 
 
 def enc(v):
@@ -49,7 +50,7 @@ def _body(fid, arith, req, dfl, rest):
         out = [fid, [enc(x) for x in req], [None if d is None else enc(d) for d in dfl], [enc(x) for x in rest]]
     if not _QUIET:
         k = _first_int(list(req) + [d for d in dfl if d is not None] + list(rest))
-        if k is not None and k % 8:
+        if k is not None and k % 8 and not _NOSLEEP:
             time.sleep((k % 8) * UNIT)
         if LOG:
             fd = os.open(LOG, os.O_WRONLY | os.O_APPEND | os.O_CREAT)
@@ -89,7 +90,7 @@ def dec(v):
 
 
 def main():
-    global _QUIET
+    global _QUIET, _NOSLEEP
     import concurrent.futures.process as cfp
     from pennylane.concurrency.executors import create_executor
 
@@ -131,6 +132,7 @@ def main():
         # ---- the executor
         if LOG:
             open(LOG, "w").close()
+        _NOSLEEP = c["be"] == "serial"
         ex, _tmp = get_exec(c["be"], c["workers"], c["persist"])
         t0 = time.time()
         etype = None
